@@ -326,6 +326,21 @@ class Model:
 
     def op_restart(self, op):
         self.generation += 1
+        # Zero-length content has no location on disc, so an ISO9660/Joliet name
+        # of it has no recorded tie to any other name: after a restart each such
+        # name is a file of its own.  UDF names of one zero-length file share a
+        # File Entry and stay together.
+        for ns in ('iso', 'joliet'):
+            for p, n in list(self.iter_ns(ns)):
+                if n.kind != 'file' or n.blob == 'cat':
+                    continue
+                if n.blob is None or (isinstance(n.blob, int) and self.blobs[n.blob].length == 0):
+                    self._uid += 1
+                    nb = 1000000 + self._uid
+                    self.blobs[nb] = Blob(nb, 0, (), gen=self.generation)
+                    n.blob = nb
+                    n.noinode = False
+        self._gc()
         for b in self.blobs.values():
             if b.bit:
                 # mastering overwrote bytes 8..63 of the stored file; the image
